@@ -74,6 +74,13 @@ func genPoolOp(r *Rng) *Op {
 			e = genBad(r, op.Opt)
 			e.ML = msgLen(r)
 		}
+		if r.Chance(1, 6) {
+			// accepted under ZIP-215 rules only (see the option-only sibling)
+			e = Entry{K: zipOnlyKinds[r.Intn(len(zipOnlyKinds))], P: r.Intn(1 << 16), Q: r.Intn(1 << 16), ML: msgLen(r)}
+			if !op.Opt.signable() {
+				op.Opt = Opt{Zip: op.Opt.Zip}
+			}
+		}
 		op.E = &e
 		if r.Chance(1, 12) {
 			op.SL = lenCode(sigLens[r.Intn(len(sigLens))])
@@ -194,6 +201,15 @@ func siblingOf(r *Rng, base *Op) *Op {
 	op := cloneOp(base)
 	switch op.Fn {
 	case "Verify", "VerifyOpts":
+		if op.Fn == "VerifyOpts" && op.E != nil && r.Chance(1, 2) {
+			for _, k := range zipOnlyKinds {
+				if op.E.K == k {
+					// the very same bytes under the other rule set
+					op.Opt.Zip = !op.Opt.Zip
+					return op
+				}
+			}
+		}
 		kinds := []string{"ok", "msg", "fS", "fR", "fA", "sL"}
 		e := Entry{K: kinds[r.Intn(len(kinds))], P: r.Intn(1 << 16)}
 		if op.E != nil {
